@@ -13,7 +13,8 @@ use cairo_lang_filesystem::ids::CrateId;
 use cairo_lang_lowering::db::LoweringGroup;
 use cairo_lang_lowering::diagnostic::LoweringDiagnosticKind;
 use cairo_lang_lowering::ids::{FunctionWithBodyId, FunctionWithBodyLongId};
-use cairo_lang_lowering::{BlockEnd, Lowered, LoweringStage, Statement, VarUsage};
+use cairo_lang_filesystem::flag::FlagsGroup;
+use cairo_lang_lowering::{BlockEnd, DependencyType, Lowered, LoweringStage, Statement, VarUsage};
 use cairo_lang_semantic::items::imp::ImplSemantic;
 use cairo_lang_semantic::items::trt::TraitSemantic;
 use cairo_lang_utils::Intern;
@@ -40,7 +41,14 @@ pub struct FnCase {
     /// 3 anything else
     pub expected: Vec<(u8, usize)>,
     pub lowering_has_errors: bool,
+    /// flag_add_withdraw_gas && in_cycle(f, Cost): the condition of db.rs for the extra
+    /// borrow_check_possible_withdraw_gas, evaluated for the function itself
+    pub withdraw_gas_check: bool,
+    /// location keys of the VariableNotDropped entries of function_with_body_lowering_diagnostics(f)
+    pub fn_not_dropped: Vec<usize>,
     pub stats: FnStats,
+    /// the same function for the path oracle (spec.rs)
+    pub sfn: crate::spec::SFn,
     /// structural fingerprint (for counting distinct cases)
     pub fingerprint: u64,
 }
@@ -122,10 +130,12 @@ pub fn translate<'db>(db: &'db dyn Database, f: FunctionWithBodyId<'db>, name: S
         format!("[{}]", v.iter().map(|x| x.index().to_string()).collect::<Vec<_>>().join(";"))
     };
     let mut blocks = vec![];
+    let mut sfn = crate::spec::SFn { params: lowered.parameters.iter().map(|v| v.index()).collect(), is_panic_destruct_fn: is_pd, flags: vec![], blocks: vec![] };
     let mut arm_targets: HashMap<usize, usize> = HashMap::new();
     for (_, b) in lowered.blocks.iter() {
         st.blocks += 1;
         let mut ss = vec![];
+        let mut sstmts = vec![];
         for s in &b.statements {
             st.stmts += 1;
             let t = match s {
@@ -164,6 +174,7 @@ pub fn translate<'db>(db: &'db dyn Database, f: FunctionWithBodyId<'db>, name: S
                 return Err(format!("translator out of date: Statement::inputs()/outputs() of {name} differ from the fields the model reads"));
             }
             ss.push(t);
+            sstmts.push(crate::spec::SStmt { ins: ri, outs: ro, panicable_call: matches!(s, Statement::Call(c) if matches!(c.function.signature(db, LoweringStage::Monomorphized), Ok(sig) if sig.panicable)) });
         }
         let e = match &b.end {
             BlockEnd::NotSet => "ENotSet".to_string(),
@@ -185,6 +196,16 @@ pub fn translate<'db>(db: &'db dyn Database, f: FunctionWithBodyId<'db>, name: S
             }
         };
         blocks.push(format!("Blk [{}] ({})", ss.join("; "), e));
+        let ix = |v: &[VarUsage<'db>]| -> Vec<usize> { v.iter().map(|u| u.var_id.index()).collect() };
+        let send = match &b.end {
+            BlockEnd::NotSet => crate::spec::SEnd::NotSet,
+            BlockEnd::Return(v, _) => crate::spec::SEnd::Return(ix(v)),
+            BlockEnd::Panic(u) => crate::spec::SEnd::Panic(u.var_id.index()),
+            BlockEnd::Goto(t, r) => crate::spec::SEnd::Goto(t.0, r.iter().map(|(d, u)| (d.index(), u.var_id.index())).collect()),
+            BlockEnd::Match { info } => crate::spec::SEnd::Match(ix(info.inputs()),
+                info.arms().iter().map(|a| (a.block_id.0, a.var_ids.iter().map(|v| v.index()).collect())).collect()),
+        };
+        sfn.blocks.push(crate::spec::SBlock { stmts: sstmts, end: send });
     }
     st.shared_arm_blocks = arm_targets.values().filter(|n| **n > 1).count();
     let mut vars = vec![];
@@ -193,6 +214,7 @@ pub fn translate<'db>(db: &'db dyn Database, f: FunctionWithBodyId<'db>, name: S
         let (c, d, ds, pd) = (v.info.copyable.is_ok(), v.info.droppable.is_ok(), v.info.destruct_impl.is_ok(), v.info.panic_destruct_impl.is_ok());
         if !c { st.noncopy_vars += 1; }
         if !d { st.nondrop_vars += 1; }
+        sfn.flags.push((c, d, ds, pd));
         vars.push(format!("mkv {} {} {} {} {}", c, d, ds, pd, locs.key(v.location.long(db).stable_location)));
     }
     let mut coq = String::new();
@@ -207,6 +229,13 @@ pub fn translate<'db>(db: &'db dyn Database, f: FunctionWithBodyId<'db>, name: S
         };
         expected.push((k, locs.key(d.location.stable_location)));
     }
-    let fingerprint = hash_str(&coq);
-    Ok(Some(FnCase { name, coq, expected, lowering_has_errors: lowered.diagnostics.has_errors(), stats: st, fingerprint }))
+    let withdraw_gas_check = db.flag_add_withdraw_gas() && matches!(db.in_cycle(f, DependencyType::Cost), Ok(true));
+    let mut fn_not_dropped = vec![];
+    for d in db.function_with_body_lowering_diagnostics(f).get_all() {
+        if matches!(d.kind, LoweringDiagnosticKind::VariableNotDropped { .. }) {
+            fn_not_dropped.push(locs.key(d.location.stable_location));
+        }
+    }
+    let fingerprint = hash_str(&format!("{coq}{withdraw_gas_check}"));
+    Ok(Some(FnCase { name, coq, expected, lowering_has_errors: lowered.diagnostics.has_errors(), withdraw_gas_check, fn_not_dropped, stats: st, sfn, fingerprint }))
 }
